@@ -61,7 +61,16 @@ def run_long(item):
         pulled = [0]
         obs = []
         state = {'max': -1, 'cnt': 0, 'last': None}
-        if item['source'].startswith('iterable'):
+        if item['source'] == 'three_iterables':
+            # three counted sources; the middle one is deleted, the outer two are concatenated: the rows of the later resources are
+            # pulled when their turn comes, not when the concatenation starts (row numbers k run over all three sources)
+            def gen3(j):
+                for i in range(n):
+                    pulled[0] += 1
+                    yield dict(a=i % 3, b='s%d' % i, k=j * n + i + 1)
+            src = None
+            multi = [gen3(0), gen3(1), gen3(2), DF.delete_resource('res_2'), DF.concatenate(dict(a=[], b=[], k=[]), resources=['res_1', 'res_3'])]
+        elif item['source'].startswith('iterable'):
             late = item['source'] == 'iterable_latecol'     # a column that stays empty far beyond the inference sample
 
             def gen():
@@ -117,12 +126,12 @@ def run_long(item):
                 yield row
                 if item.get('head') and state['cnt'] >= item['head']:
                     return          # a consumer that stops reading this resource early: nothing more may be pulled for it
-        links = [src] + [m[x]() for x in item['prog']] + [sink]
+        links = ([src] if src is not None else multi) + [m[x]() for x in item['prog']] + [sink]
         try:
             with contextlib.redirect_stdout(io.StringIO()), contextlib.redirect_stderr(io.StringIO()):
                 Flow(*links).process()
         finally:
-            if not item['source'].startswith('iterable'):
+            if item['source'].startswith('csv'):
                 loadmod.Stream = Base
         if state['last'] and (not obs or obs[-1] != state['last']):
             obs.append(state['last'])
@@ -135,6 +144,8 @@ def run_long(item):
 
 def bound_of(item):
     """K(program): from the program only"""
+    if item['source'] == 'three_iterables':
+        return 3 * SRC_AHEAD - 1          # three sources: three inference samples are taken before the first row is delivered
     if item['source'].startswith('iterable'):
         return SRC_AHEAD - 1
     return LOAD_SAMPLE
@@ -185,6 +196,9 @@ def run():
     # a consumer that reads only the first rows of the resource (rows are pulled only as rows are delivered - also when delivery stops)
     for it in [x for x in items if x['source'] == 'iterable'][::3]:
         items.append(dict(it, id=it['id'] + '-head', pid=it['pid'] + '-head', head=5))
+    for j, p in enumerate(([], ['add_field'], ['filter_fn'], ['dump_to_path'])):
+        for n in sizes:
+            items.append(dict(id='m%d-three-%d' % (j, n), pid='m%d-three' % j, prog=p, n=n, source='three_iterables'))
     for j, p in enumerate((['stream'], ['checkpoint'], ['dump_to_path'], ['dump_to_zip'], ['printer'], ['set_type_a_number', 'stream'], ['filter_fn', 'checkpoint'])):
         for n in sizes:
             items.append(dict(id='h%d-iterable-%d-head' % (j, n), pid='h%d-iterable-head' % j, prog=p, n=n, source='iterable', head=5))
@@ -196,7 +210,7 @@ def run():
         raise tlc.MachineryError('harness error in long runs: ' + errs[0])
     recs = []
     for it, run_ in zip(items, runs):
-        recs.append(dict(id=it['id'], n=it['n'], bound=bound_of(it), obs=run_['obs']))
+        recs.append(dict(id=it['id'], n=it['n'] * (3 if it['source'] == 'three_iterables' else 1), bound=bound_of(it), obs=run_['obs']))
     wd = tlc.workdir('c06t')
     tf = tlc.write_ndjson(os.path.join(wd, 'runs.ndjson'), recs)
     cfg = tlc.write_cfg(os.path.join(wd, 'la.cfg'), invariants=[], constraints=['Verdict'])
